@@ -2,7 +2,13 @@
 
 use self::try_lock::TryLock;
 use alloc::boxed::Box;
+#[cfg(not(all(bytecodealliance_wit_bindgen_verif, kani)))]
 use alloc::collections::BTreeMap;
+// Verification hook: under the model checker the waitable map is a two-slot
+// finite map with the same `insert`/`remove`/`is_empty` API (`BTreeMap::remove`
+// alone exhausts CBMC's memory).
+#[cfg(all(bytecodealliance_wit_bindgen_verif, kani))]
+use self::verif::btmodel::SmallMap as BTreeMap;
 use alloc::sync::Arc;
 use alloc::task::Wake;
 use core::ffi::c_void;
